@@ -61,6 +61,13 @@ POOL: dict[str, list[str]] = {
         R + "from fractions import Fraction\n\ndef f(b: bool, q: Fraction, c: complex, ts: tuple[float, ...]) -> None:\n    reveal_type(abs(b))\n    reveal_type(abs(q))\n    reveal_type(abs(c))\n    reveal_type(round(q, 2))\n    reveal_type(round(q))\n    reveal_type(divmod(b, b))\n    reveal_type(pow(b, 2))\n    reveal_type(sum(ts))\n    reveal_type(max(ts))\n    reveal_type(sorted(ts))\n    reveal_type(min(q, q))\n    abs('no')\n    round(None)\n",
         R + "from typing import Protocol, TypeVar, Union\n\nT = TypeVar('T', covariant=True)\n\nclass HasGet(Protocol[T]):\n    def get(self) -> T:\n        raise NotImplementedError\n\nclass GI:\n    def get(self) -> int:\n        return 1\n\nclass GS:\n    def get(self) -> str:\n        return ''\n\ndef take(h: HasGet[T]) -> T:\n    return h.get()\n\ndef f(u: Union[GI, GS], i: GI, s: GS) -> None:\n    reveal_type(take(u))\n    reveal_type(take(i))\n    reveal_type(take(s))\n    reveal_type(take(u))\n    take(1)\n",
     ],
+    # end-of-run reports of the ClassAttributeChecker: the same never-set attribute read at several sites of one class,
+    # several classes, reads in comprehensions / nested functions; the reports are sorted by attribute name only, so their
+    # order among reads of one attribute must not depend on set / dict iteration over AST nodes
+    "attrchecker": [
+        "class Capybara(object):\n    def __init__(self):\n        self.weight = 1\n\n    def eat(self):\n        return self.grass\n\n    def eat_more(self):\n        if self.grass:\n            return self.grass + self.weight\n        return self.hay\n\n    def sleep(self):\n        print(self.grass)\n        print(self.hay)\n\n    def swim(self):\n        total = self.weight\n        total += self.grass\n        total += self.grass\n        return total\n\n    def run(self):\n        return [self.grass for _ in range(self.weight)]\n\n    def hide(self):\n        return (self.hay, self.grass, self.burrow)\n",
+        "class A(object):\n    def f(self):\n        return self.x + self.y + self.x\n\n    def g(self):\n        def inner():\n            return self.x, self.z\n        return inner, self.y\n\n\nclass B(A):\n    def h(self):\n        return self.x or self.w or self.x\n\n\nclass C(object):\n    def k(self):\n        return {self.x: self.x for _ in (self.x, self.y)}\n",
+    ],
     "narrow": [
         R + "from typing import Union, Optional\n\ndef f(x: Union[int, str, None, list[int], tuple[str, ...]]) -> None:\n    if not x:\n        reveal_type(x)\n    elif isinstance(x, (int, list)):\n        reveal_type(x)\n    else:\n        reveal_type(x)\n    while x:\n        reveal_type(x)\n        x = None\n",
     ],
